@@ -148,9 +148,11 @@ def self_check(ctx, lib, roles):
         else:
             ctx.ok("SCK-1", "%s->%s" % (body.path, rot.path), {"guards": ["%s==%s" % (f, t) for f, t, _ in cfg_guards]}, body.loc(term.get("line")))
     # SCK-2: the per-test-case predicate
+    from sa import callgraph
+    reach = callgraph.CallGraph(lib).reachable([rot.path])
     preds = []
     for b in lib.bodies:
-        if b.kind != "closure":
+        if b.kind != "closure" or b.path not in reach:
             continue
         names = [callee_name(t) or "" for _, t in b.calls()]
         if any(re.match(r"^regex::Regex::(?:find|find_iter|find_at|is_match|shortest_match|captures)", n) for n in names):
